@@ -212,7 +212,8 @@ theorem decode_litCompress (b : Bytes) (hb : b.length < 2 ^ 32) : Snappy.decode 
 
 /-- non-vacuity for the compressing configuration -/
 theorem wOptsOK_snappy (blockSize ri : Nat) (hri : 1 ≤ ri) (filter : FilterPolicy)
-    (hf : ∀ ks k, k ∈ ks → filter.keyMayMatch k (filter.createFilter ks) = true) :
+    (hf : ∀ ks k, k ∈ ks → (filter.createFilter ks).length < 2 ^ 32 →
+      filter.keyMayMatch k (filter.createFilter ks) = true) :
     WOptsOK { cmp := defaultCmp, blockSize, restartInterval := ri, compression := 1, filter,
               compress := litCompress } where
   lawful := defaultCmp_lawful
@@ -223,8 +224,15 @@ theorem wOptsOK_snappy (blockSize ri : Nat) (hri : 1 ≤ ri) (filter : FilterPol
   lastSep := defaultCmp_lastSep
   sepLen := fun _ => defaultCmp_sepLen
 
+/-- … with the crate's default filter policy (bloom) -/
+theorem wOptsOK_snappy_bloom (blockSize ri : Nat) (hri : 1 ≤ ri) (b : Nat) :
+    WOptsOK { cmp := defaultCmp, blockSize, restartInterval := ri, compression := 1,
+              filter := Bloom.policy b, compress := litCompress } :=
+  wOptsOK_snappy blockSize ri hri (Bloom.policy b) (bloom_policy_sound b)
+
 end BL
 end Sst
 
 #print axioms Sst.BL.no_unrestricted_lossless
 #print axioms Sst.BL.wOptsOK_snappy
+#print axioms Sst.BL.wOptsOK_snappy_bloom
